@@ -150,7 +150,8 @@ def judge(run, variant, res, stats, rerun):
         return
     if info:
         for k in ("request_handler", "response_handler", "nack_handler", "event_handler",
-                  "ping_handler", "pong_handler", "reentry_calls", "lock_acquisitions",
+                  "ping_handler", "pong_handler", "release_handler", "reentry_calls",
+                  "lock_acquisitions",
                   "lock_handovers", "tracked_con", "notifications"):
             stats[k] = stats.get(k, 0) + info.get(k, 0)
         stats["pairs"] |= set(info.get("pairs", []))
@@ -275,6 +276,6 @@ def main(tier):
         run.require("distinct_handover_pairs", len(pairs), 30)
         run.require("reentry_calls", stats.get("reentry_calls", 0), 200)
         for k in ("request_handler", "response_handler", "nack_handler", "event_handler",
-                  "ping_handler", "pong_handler"):
+                  "ping_handler", "pong_handler", "release_handler"):
             run.require(k, stats.get(k, 0), 5)
     return run.finish()
